@@ -314,6 +314,15 @@ class LiftCase:
             if agrees_with(idx):
                 return ('C15/lifting/operand/narop/'
                         'operand-argument-not-unwrapped')
+        def has_empty(nf):
+            return ck.is_chan(nf) and (not nf[1] or any(has_empty(i) for i in nf[1]))
+        a0, nfa0, objs0, nfs0 = self.build()
+        if has_empty(nfa0) or any(has_empty(x) for x in nfs0):
+            # "lists of any length": the empty list
+            if self.src == 'method' and \
+                    (overridden_by(a, self.e['name']) or '').startswith('ChannelList.'):
+                return 'C15/lifting/channels/empty-list-operand/multichannel-perform'
+            return f'C15/lifting/channels/empty-list-operand/list-{hook}'
         if self.src == 'method' and self.akind == 'nchan' \
                 and (overridden_by(a, self.e['name']) or '').startswith('ChannelList.'):
             # ChannelList's own (UGen oriented) operator methods perform on
@@ -578,8 +587,19 @@ def run_hist(spec, acc):
                     break
             else:
                 idx = rng.randrange(len(reals))
-                op = rng.choices(['pause', 'resume', 'reset', 'stop'],
-                                 [4, 4, 3, 1])[0]
+                op = rng.choices(['pause', 'resume', 'reset', 'stop', 'reset-composed'],
+                                 [4, 4, 3, 1, 1])[0]
+                if op == 'reset-composed':
+                    # reset() of a composed stream restarts all its operands
+                    comp.reset()
+                    for t in twins:
+                        t.reset()
+                    hist.append((op,))
+                    last_ctl = op
+                    acc.count('stream_history_reset_composed')
+                    if saw_end:
+                        f_exh = True
+                    continue
                 for rt in (reals[idx], twins[idx]):
                     if op == 'resume':
                         rt.resume(clock)
